@@ -3,12 +3,23 @@
 Engine A: all poll histories up to a depth bound (symbolic per poll: ack id incl. stale re-poll, upstream status,
 number of simulator events, which of them an addon swallows, whether the proxy injects an event before the poll)
 through the real MITMProxyEventManager request/response handlers and EventQueueManager, against a sequence model.
+
+Two dedicated families ride on the same real stack:
+ * `repoll__*`: the poll that gets repeated carries an unusual ack id (LLSD undef = the very first poll of a queue, 0,
+   a negative id, ordinary ids) and its response carried any mix of simulator / swallowed / injected events; the repeat(s)
+   must be answered with that response again, must not reach the addons, must not consume a pending injection, and the
+   next fresh poll must be forwarded and carry exactly what is still owed.
+ * `regions__*`: all sequences of three region-announcing events (EnableSimulator, EstablishAgentCommunication,
+   TeleportFinish, CrossedRegion — the templated ones in their LLSD message form) over two simulator addresses, in one
+   response / one per poll / one per poll with the viewer opening circuits in between, against an independent
+   address -> (handle, seed) model of the session's region list.
 """
 from vlib.harness import harness, shard
 from harness import proxyfix as px
 from harness import httpfix as hx
 from harness.proxyfix import small
 from hippolyzer.lib.base import llsd
+from hippolyzer.lib.base.datatypes import UUID
 from mitmproxy.http import HTTPFlow
 from mitmproxy.test import tutils
 
@@ -192,11 +203,273 @@ def polls3(p0: int, p1: int, p2: int) -> bool:
 
 
 shard(polls2, "p0", range(0, 288, 2), [f"first_{i}" for i in range(0, 288, 2)], globals(), quick=range(0, 288, 32))
+
+
+# ---------------------------------------------------------------------------------------------------------------------
+# shared set-up / raw poll (arbitrary ack incl. undef, arbitrary upstream answer)
+_BROKEN = ("harness-broken",)
+
+
+def setup_stack():
+    sw = Swallower()
+    f = px.reset([sw])
+    ctx, mgr = hx.fresh_http()
+    region = px.REGION
+    region.caps.clear()
+    from hippolyzer.lib.proxy.caps import CapType
+    region.caps["Seed"] = (CapType.NORMAL, "https://test.localhost:4/foo")
+    region.register_cap("EventQueueGet", "https://sim.example" + EQ_URL_PATH)
+    region.eq_manager.clear()
+    ann_cleanup()
+    return sw, f, ctx, mgr, region
+
+
+def poll_raw(ctx, mgr, ack, upstream):
+    """one viewer poll acking `ack` (None = LLSD undef); if the proxy forwards it the simulator answers 200 with the
+    LLSD value `upstream`.  Returns (body the viewer receives, served by the proxy itself) or (_BROKEN, None)."""
+    flow = hx.make_flow(url_host="sim.example", path=EQ_URL_PATH, content=hx.xml({"ack": ack, "done": False}))
+    hx.pump(mgr, ctx, "request", flow)
+    back = hx.drain(ctx.to_proxy_queue)
+    if len(back) != 1:
+        return _BROKEN, None
+    f2 = HTTPFlow.from_state(back[0][2])
+    if f2.response is not None:
+        if f2.response.status_code != 200:
+            return _BROKEN, None
+        return llsd.parse_xml(f2.response.content), True
+    f2.response = tutils.tresp(content=hx.xml(upstream), status_code=200)
+    hx.pump(mgr, ctx, "response", f2)
+    back = hx.drain(ctx.to_proxy_queue)
+    if len(back) != 1:
+        return _BROKEN, None
+    f3 = HTTPFlow.from_state(back[0][2])
+    if f3.response.status_code != 200:
+        return _BROKEN, None
+    return llsd.parse_xml(f3.response.content), False
+
+
+# ---------------------------------------------------------------------------------------------------------------------
+# repeated poll whose ack id is falsy / unusual
+# (ack id of the poll that gets repeated, id of its response = ack id of the next fresh poll)
+ACK_CHAINS = [(None, 0), (None, 3), (0, 1), (-1, 0), (1, 2)]
+ACK_LABELS = ["undef_then_0", "undef_then_3", "0_then_1", "neg1_then_0", "1_then_2"]
+# (number of simulator events in the first response, swallow mask over them)
+FIRST_SHAPES = [(0, 0), (1, 0), (1, 1), (2, 0), (2, 1), (2, 2), (2, 3)]
+
+
+def expected_body(resp_id, sim_tags, swallowed, pending):
+    """the model's view of what the viewer gets for a forwarded 200 poll"""
+    want = [t for t in sim_tags if t not in swallowed] + pending
+    if not sim_tags and not pending:
+        return {"id": resp_id, "events": []}          # nothing to filter, nothing to add: untouched
+    if not want:
+        return None                                   # emptied: the protocol's no-events form
+    return {"id": resp_id, "events": [ev(t) for t in want]}
+
+
+def run_repoll(chain, shape, inj_first, reps, inj_mid):
+    sw, f, ctx, mgr, region = setup_stack()
+    a, id1 = ACK_CHAINS[chain]
+    k1, mask1 = FIRST_SHAPES[shape]
+    seen_want = []            # simulator event tags the addon must have been shown, in order, each once
+    pending = []
+    if inj_first:
+        region.eq_manager.inject_event(ev(100))
+        pending.append(100)
+    tags1 = list(range(k1))
+    sw.tags = set(t for i, t in enumerate(tags1) if mask1 & (1 << i))
+    body, cached = poll_raw(ctx, mgr, a, {"id": id1, "events": [ev(t) for t in tags1]})
+    if cached is not False:
+        return False                                  # the first poll of a fresh queue is forwarded
+    last = expected_body(id1, tags1, sw.tags, pending)
+    if body != last:
+        return False
+    seen_want.extend(tags1)
+    if tags1 or pending:
+        pending = []
+    last_id = id1
+    for r in range(reps):
+        if inj_mid and r == 0:
+            region.eq_manager.inject_event(ev(200))
+            pending.append(200)
+        # the simulator has moved on: were the repeat forwarded, it would answer with its next batch
+        nxt = [50 + r]
+        sw.tags = set()
+        body, cached = poll_raw(ctx, mgr, a, {"id": id1 + 1 + r, "events": [ev(t) for t in nxt]})
+        if cached is None:
+            return False
+        if last is not None:
+            # the viewer lost `last`: it is given again, verbatim; nothing new is consumed
+            if not cached or body != last:
+                return False
+        else:
+            # the previous response was the no-events form: nothing to give again, the poll goes to the simulator
+            if cached:
+                return False
+            last = expected_body(id1 + 1 + r, nxt, set(), pending)
+            if body != last:
+                return False
+            seen_want.extend(nxt)
+            pending = []
+            last_id = id1 + 1 + r
+    # the viewer finally got the response and acks its id: forwarded, carries the new event and what is still pending
+    body, cached = poll_raw(ctx, mgr, last_id, {"id": last_id + 1, "events": [ev(90)]})
+    if cached is not False:
+        return False
+    if body != expected_body(last_id + 1, [90], set(), pending):
+        return False
+    seen_want.append(90)
+    if region.eq_manager.take_injected_events():
+        return False                                  # nothing left behind
+    return sw.seen == seen_want
+
+
+@harness(pre=["0 <= chain < 5", "0 <= shape < 7", "1 <= reps <= 2"], post="_", timeout=900,
+         note="lost-response histories poll(ack a) ; 1..2 repeats of poll(ack a) ; poll(ack = id just received), with a in "
+              "{LLSD undef (first poll of a queue), 0, -1, 1} and response ids {0, 1, 2, 3}: the first response carries 0..2 "
+              "simulator events, any subset swallowed, with/without an event injected before it; an event may be injected "
+              "before the first repeat.  Every repeat is answered by the proxy with the previous response verbatim "
+              "(including injected events that rode on it) whatever the ack value, addons are not shown anything again, "
+              "the pending injection is not consumed by a replay; when the previous response was the no-events form the "
+              "repeat is forwarded; the next fresh poll is forwarded and carries its event plus exactly the still-pending "
+              "injection; addons saw every forwarded simulator event exactly once, in order",
+         covers=COVERS)
+def repoll(chain: int, shape: int, inj_first: bool, reps: int, inj_mid: bool) -> bool:
+    return run_repoll(small(chain, 0, 4), small(shape, 0, 6), bool(inj_first), small(reps, 1, 2), bool(inj_mid))
+
+
+shard(repoll, "chain", range(5), ACK_LABELS, globals())
+
+
+# ---------------------------------------------------------------------------------------------------------------------
+# region-announcing events: same / different simulator address announced repeatedly
+ADDRS = [("10.0.0.8", 15001), ("10.0.0.8", 15002)]            # two simulators on one host: only the port differs
+HANDLES = [(256000 << 32) | 256256, (256256 << 32) | 256256]
+SEEDS = [["https://sim.example:12043/cap/a-0", "https://sim.example:12043/cap/a-1"],
+         ["https://sim.example:12043/cap/b-0", "https://sim.example:12043/cap/b-1"]]
+KINDS = ["EnableSimulator", "EstablishAgentCommunication", "TeleportFinish", "CrossedRegion"]
+_AGENT = UUID("33333333-3333-3333-3333-333333333333")
+_SESS = UUID("11111111-1111-1111-1111-111111111111")
+
+
+def _ip(ip):
+    return bytes(int(p) for p in ip.split("."))
+
+
+def announce_event(kind, x, s):
+    """catalogue event of `kind` announcing address x with seed variant s, in the form the simulator puts on the event
+    queue (templated messages in LLSD message form: U64/U32/IPADDR as big-endian binary), built without repo code"""
+    ip, port = ADDRS[x]
+    h = HANDLES[x].to_bytes(8, "big")
+    if kind == 0:
+        return {"message": "EnableSimulator", "body": {"SimulatorInfo": [{"Handle": h, "IP": _ip(ip), "Port": port}]}}
+    if kind == 1:
+        return {"message": "EstablishAgentCommunication",
+                "body": {"agent-id": _AGENT, "sim-ip-and-port": f"{ip}:{port}", "seed-capability": SEEDS[x][s]}}
+    if kind == 2:
+        return {"message": "TeleportFinish",
+                "body": {"Info": [{"AgentID": _AGENT, "LocationID": (4).to_bytes(4, "big"), "SimIP": _ip(ip), "SimPort": port,
+                                   "RegionHandle": h, "SeedCapability": SEEDS[x][s], "SimAccess": 13,
+                                   "TeleportFlags": (0x1000).to_bytes(4, "big")}]}}
+    return {"message": "CrossedRegion",
+            "body": {"AgentData": [{"AgentID": _AGENT, "SessionID": _SESS}],
+                     "RegionData": [{"SimIP": _ip(ip), "SimPort": port, "RegionHandle": h, "SeedCapability": SEEDS[x][s]}],
+                     "Info": [{"Position": [1.0, 2.0, 3.0], "LookAt": [1.0, 0.0, 0.0]}]}}
+
+
+ANN_EVENTS = [[[announce_event(k, x, s) for s in range(2)] for x in range(2)] for k in range(4)]
+
+
+def regions_view(n0):
+    """what the session knows about the regions registered after the first n0"""
+    return [(r.circuit_addr, r.handle, r.cap_urls.get("Seed")) for r in px.SESSION.regions[n0:]]
+
+
+def run_regions(seq, layout):
+    """seq: [(kind, address index)] in announcement order; layout 0: all in one response, 1: one per poll, 2: one per poll
+    and the viewer opens a circuit to every region announced so far after each poll"""
+    sw, f, ctx, mgr, region = setup_stack()
+    n0 = len(px.SESSION.regions)
+    main_before = [(r.circuit_addr, r.handle, r.cap_urls.get("Seed")) for r in px.SESSION.regions]
+    model = {}                # address -> [handle, seed]   (independent model of "registered exactly once")
+    order = []                # addresses in order of first announcement
+    events = []
+    for j, (kind, x) in enumerate(seq):
+        s = j % 2                                     # 1st and 3rd announcement share a seed variant, the 2nd differs
+        events.append(ANN_EVENTS[kind][x][s])
+        addr = ADDRS[x]
+        handle = HANDLES[x] if kind != 1 else None    # EstablishAgentCommunication carries no handle
+        seed = SEEDS[x][s] if kind != 0 else None     # EnableSimulator carries no seed
+        if addr not in model:
+            model[addr] = [handle, seed]
+            order.append(addr)
+        else:
+            if handle is not None:
+                model[addr][0] = handle
+            if seed is not None:
+                model[addr][1] = seed
+        if layout != 0:
+            body, cached = poll_raw(ctx, mgr, j + 1, {"id": j + 2, "events": [events[-1]]})
+            if cached is not False or body != {"id": j + 2, "events": [events[-1]]}:
+                return False                          # announcing events pass through to the viewer untouched
+            if regions_view(n0) != [(a, model[a][0], model[a][1]) for a in order]:
+                return False
+            if layout == 2:
+                for a in order:
+                    if not px.SESSION.open_circuit(px.CLIENT, a, f.rec):
+                        return False
+    if layout == 0:
+        body, cached = poll_raw(ctx, mgr, 1, {"id": 2, "events": events})
+        if cached is not False or body != {"id": 2, "events": events}:
+            return False
+    if [(r.circuit_addr, r.handle, r.cap_urls.get("Seed")) for r in px.SESSION.regions[:n0]] != main_before:
+        return False
+    # one region per announced address, in order of first sighting, knowing the latest handle and seed it was told
+    return regions_view(n0) == [(a, model[a][0], model[a][1]) for a in order] and sw.seen == [None] * len(seq)
+
+
+@harness(pre=["0 <= k0 < 4", "0 <= e1 < 8", "0 <= e2 < 8", "0 <= layout < 3"], post="_", timeout=900,
+         note="all sequences of three region-announcing events, each {EnableSimulator, EstablishAgentCommunication, "
+              "TeleportFinish, CrossedRegion} x {address A, address B (same host, other port)} (first one for A: the two "
+              "addresses are interchangeable), seeds differing between consecutive announcements, delivered {all in one "
+              "response, one per poll, one per poll with the viewer opening circuits to the announced regions in between}; "
+              "state checked after every poll, so all 1- and 2-event prefixes are covered too: the session holds exactly "
+              "one region per announced address, in order of first sighting, carrying the latest handle and seed it was "
+              "told about (no circuit needed for the match), the login region is untouched, the events reach the viewer "
+              "unchanged and in order",
+         covers=COVERS + (_P + "sessions:Session.open_circuit",))
+def regions(k0: int, e1: int, e2: int, layout: int) -> bool:
+    k0 = small(k0, 0, 3)
+    e1 = small(e1, 0, 7)
+    e2 = small(e2, 0, 7)
+    return run_regions([(k0, 0), (e1 % 4, e1 // 4), (e2 % 4, e2 // 4)], small(layout, 0, 2))
+
+
+shard(regions, "k0", range(4), KINDS, globals())
+
+
 EVIDENCE = {
-    "bounds": "2 polls (quick: 9 of the 144 first-poll shapes x all 288 second polls; thorough: all, and 3 polls), <=2 events "
-              "per response, all swallow subsets, injection before any poll, one region-announcing event kind",
-    "outside": "LLSD XML bodies are concrete per path (tags are ints embedded in catalogue events); region teardown between "
-               "polls; templated (LLSD message) events",
+    "bounds": "polls2: 2 polls (quick: 9 of the 144 first-poll shapes x all 288 second polls; thorough: all, and 3 polls), <=2 "
+              "events per response, all swallow subsets, injection before any poll, one region-announcing event kind with a "
+              "fresh address each time, ack ids >= 1.  repoll: 3-4 polls, repeated ack in {undef, 0, -1, 1}, 1-2 repeats, "
+              "<=2 events in the repeated response.  regions: 3 announcing events of 4 kinds over 2 addresses, 3 delivery "
+              "layouts, no addon swallowing an announcement (polls2 covers a swallowed single announcement)",
+    "outside": "LLSD XML bodies are concrete per path (tags are ints embedded in catalogue events; templated announcing "
+               "events are literal LLSD-message-form catalogue entries); region teardown between polls; two addresses "
+               "announced with the same seed URL; templated events other than the three announcing ones",
     "assumptions": ["any 200 response counts as 'the next response': injected events also ride on an (unusual) 200 "
-                    "response whose event list is empty"],
+                    "response whose event list is empty",
+                    "a repeated poll whose previous response was the no-events form (undef) has nothing to be given again "
+                    "and is forwarded to the simulator",
+                    "a region announced again with a different seed keeps its single region object and the newest seed is "
+                    "the one looked up first"],
 }
+
+# Engine cost note: CrossHair makes weak references deterministic by running a full gc.collect() on every weakref
+# dereference (crosshair.libimpl.weakreflib); the proxy stack dereferences ~10 per poll (cap_data.session(), region(), ...)
+# and a full collection of the import-time heap (z3, mitmproxy, templates) costs ~70 ms.  Freezing the objects that exist
+# once the harness is imported keeps those collections (and their determinism for everything allocated on a path) but
+# makes them scan only what the paths allocate.
+import gc  # noqa: E402
+gc.collect()
+gc.freeze()
